@@ -441,3 +441,228 @@ func TestWitnessOperators(t *testing.T) {
 }
 
 var _ = context.Background
+
+// ---------------------------------------------------------------------------------------------------------------
+// Two-source operators: every interleaving of notifications of two subjects a and b up to length 5 over
+// {a.Next(0), a.Next(1), b.Next(0), b.Next(1), a.Complete, b.Complete, a.Error, b.Error} (notifications after a
+// subject's own terminal are skipped), against the sequential definition of the operator.
+// ---------------------------------------------------------------------------------------------------------------
+
+type ow2Ev struct {
+	src  byte // 'a' or 'b'
+	kind byte // 'N', 'C', 'E'
+	val  int
+}
+
+func (e ow2Ev) String() string {
+	if e.kind == 'N' {
+		return fmt.Sprintf("%c.N%d", e.src, e.val)
+	}
+	return fmt.Sprintf("%c.%c", e.src, e.kind)
+}
+
+func ow2Scripts(maxLen int) [][]ow2Ev {
+	alpha := []ow2Ev{{'a', 'N', 0}, {'a', 'N', 1}, {'b', 'N', 0}, {'b', 'N', 1}, {'a', 'C', 0}, {'b', 'C', 0}, {'a', 'E', 0}, {'b', 'E', 0}}
+	var out [][]ow2Ev
+	var rec func(p []ow2Ev, doneA, doneB bool)
+	rec = func(p []ow2Ev, doneA, doneB bool) {
+		if len(p) > 0 {
+			out = append(out, append([]ow2Ev{}, p...))
+		}
+		if len(p) == maxLen {
+			return
+		}
+		for _, e := range alpha {
+			if (e.src == 'a' && doneA) || (e.src == 'b' && doneB) {
+				continue
+			}
+			rec(append(p, e), doneA || (e.src == 'a' && e.kind != 'N'), doneB || (e.src == 'b' && e.kind != 'N'))
+		}
+	}
+	rec(nil, false, false)
+	return out
+}
+
+func TestWitnessTwoSourceOperators(t *testing.T) {
+	type op struct {
+		name  string
+		build func(a, b Observable[int]) Observable[string]
+		ref   func(script []ow2Ev) []string
+	}
+	str := func(o Observable[int]) Observable[string] {
+		return Map(func(v int) string { return fmt.Sprint(v) })(o)
+	}
+	ops := []op{
+		{"Zip2", func(a, b Observable[int]) Observable[string] {
+			return Map(func(v interface{ Unpack() (int, int) }) string { x, y := v.Unpack(); return fmt.Sprintf("(%d,%d)", x, y) })(
+				Map(func(v any) interface{ Unpack() (int, int) } { return v.(interface{ Unpack() (int, int) }) })(ow2Any(Zip2(a, b))))
+		}, func(sc []ow2Ev) []string {
+			var qa, qb []int
+			doneA, doneB := false, false
+			var out []string
+			for _, e := range sc {
+				switch {
+				case e.kind == 'E':
+					return append(out, "E")
+				case e.kind == 'N' && e.src == 'a':
+					qa = append(qa, e.val)
+				case e.kind == 'N' && e.src == 'b':
+					qb = append(qb, e.val)
+				case e.kind == 'C' && e.src == 'a':
+					doneA = true
+					if len(qa) == 0 {
+						return append(out, "C")
+					}
+				case e.kind == 'C' && e.src == 'b':
+					doneB = true
+					if len(qb) == 0 {
+						return append(out, "C")
+					}
+				}
+				if len(qa) > 0 && len(qb) > 0 {
+					out = append(out, fmt.Sprintf("N(%d,%d)", qa[0], qb[0]))
+					qa, qb = qa[1:], qb[1:]
+					if (doneA && len(qa) == 0) || (doneB && len(qb) == 0) {
+						return append(out, "C")
+					}
+				}
+			}
+			return out
+		}},
+		{"CombineLatest2", func(a, b Observable[int]) Observable[string] {
+			return Map(func(v interface{ Unpack() (int, int) }) string { x, y := v.Unpack(); return fmt.Sprintf("(%d,%d)", x, y) })(
+				Map(func(v any) interface{ Unpack() (int, int) } { return v.(interface{ Unpack() (int, int) }) })(ow2Any(CombineLatest2(a, b))))
+		}, func(sc []ow2Ev) []string {
+			hasA, hasB := false, false
+			la, lb := 0, 0
+			done := 0
+			var out []string
+			for _, e := range sc {
+				switch e.kind {
+				case 'E':
+					return append(out, "E")
+				case 'C':
+					done++
+					if done == 2 {
+						return append(out, "C")
+					}
+				case 'N':
+					if e.src == 'a' {
+						hasA, la = true, e.val
+					} else {
+						hasB, lb = true, e.val
+					}
+					if hasA && hasB {
+						out = append(out, fmt.Sprintf("N(%d,%d)", la, lb))
+					}
+				}
+			}
+			return out
+		}},
+		{"MergeWith1", func(a, b Observable[int]) Observable[string] { return str(MergeWith1(b)(a)) }, func(sc []ow2Ev) []string {
+			done := 0
+			var out []string
+			for _, e := range sc {
+				switch e.kind {
+				case 'E':
+					return append(out, "E")
+				case 'C':
+					done++
+					if done == 2 {
+						return append(out, "C")
+					}
+				case 'N':
+					out = append(out, fmt.Sprintf("N%d", e.val))
+				}
+			}
+			return out
+		}},
+		{"TakeUntil", func(a, b Observable[int]) Observable[string] { return str(TakeUntil[int](b)(a)) }, func(sc []ow2Ev) []string {
+			var out []string
+			for _, e := range sc {
+				switch {
+				case e.src == 'a' && e.kind == 'N':
+					out = append(out, fmt.Sprintf("N%d", e.val))
+				case e.src == 'a' && e.kind == 'C':
+					return append(out, "C")
+				case e.src == 'a' && e.kind == 'E':
+					return append(out, "E")
+				case e.src == 'b' && e.kind == 'N':
+					return append(out, "C")
+				}
+			}
+			return out
+		}},
+		{"SkipUntil", func(a, b Observable[int]) Observable[string] { return str(SkipUntil[int](b)(a)) }, func(sc []ow2Ev) []string {
+			var out []string
+			ready := false
+			for _, e := range sc {
+				switch {
+				case e.src == 'a' && e.kind == 'N':
+					if ready {
+						out = append(out, fmt.Sprintf("N%d", e.val))
+					}
+				case e.src == 'a' && e.kind == 'C':
+					return append(out, "C")
+				case e.src == 'a' && e.kind == 'E':
+					return append(out, "E")
+				case e.src == 'b' && e.kind == 'N':
+					ready = true
+				}
+			}
+			return out
+		}},
+	}
+	prev := OnUnhandledError
+	OnUnhandledError = IgnoreOnUnhandledError
+	defer func() { OnUnhandledError = prev }()
+	scripts := ow2Scripts(5)
+	for _, o := range ops {
+		o := o
+		t.Run(o.name, func(t *testing.T) {
+			fails := 0
+			for _, sc := range scripts {
+				a, b := NewPublishSubject[int](), NewPublishSubject[int]()
+				var got []string
+				sub := o.build(a.AsObservable(), b.AsObservable()).Subscribe(NewObserver(
+					func(v string) { got = append(got, "N"+v) },
+					func(error) { got = append(got, "E") },
+					func() { got = append(got, "C") }))
+				for _, e := range sc {
+					s := a
+					if e.src == 'b' {
+						s = b
+					}
+					switch e.kind {
+					case 'N':
+						s.Next(e.val)
+					case 'C':
+						s.Complete()
+					case 'E':
+						s.Error(owErr)
+					}
+				}
+				want := o.ref(sc)
+				terminated := len(want) > 0 && (want[len(want)-1] == "C" || want[len(want)-1] == "E")
+				leaked := terminated && (a.CountObservers() != 0 || b.CountObservers() != 0)
+				if fmt.Sprint(got) != fmt.Sprint(want) || leaked {
+					fails++
+					fmt.Printf("REPLAY-FAIL %s interleaving %v: got %v, the definition gives %v (observers left on a/b after the end: %d/%d)\n", o.name, sc, got, want, a.CountObservers(), b.CountObservers())
+					if fails >= 3 {
+						sub.Unsubscribe()
+						t.Fatalf("%d mismatches", fails)
+					}
+				}
+				sub.Unsubscribe()
+			}
+			if fails > 0 {
+				t.Fatalf("%d mismatches", fails)
+			}
+			fmt.Printf("REPLAY-OK %s\n", o.name)
+		})
+	}
+}
+
+func ow2Any[T any](o Observable[T]) Observable[any] {
+	return Map(func(v T) any { return v })(o)
+}
